@@ -328,6 +328,19 @@ func (e *Engine) emit(o *Oblig, lambda bool, withModel bool, rounds ...int) stri
 					fmt.Fprintf(&b, "(assert (or (= %s %s) %s))\n", ids[i].s, ids[j].s, strings.Join(diffs, " "))
 					continue
 				}
+				if oki != okj {
+					// one constant length: the other either has a different length or differs in one of those bytes
+					l, a, c := li, ids[i].s, ids[j].s
+					if okj {
+						l, a, c = lj, ids[j].s, ids[i].s
+					}
+					var diffs []string
+					for k := int64(0); k < l; k++ {
+						diffs = append(diffs, fmt.Sprintf("(not (= (select (sarr %s) %d) (select (sarr %s) %d)))", a, k, c, k))
+					}
+					fmt.Fprintf(&b, "(assert (or (= %s %s) (not (= (slen %s) %d)) %s))\n", a, c, c, l, strings.Join(diffs, " "))
+					continue
+				}
 				d := fmt.Sprintf("sd!%d!%d", i, j)
 				fmt.Fprintf(&b, "(declare-const %s Int)\n", d)
 				fmt.Fprintf(&b, "(assert (or (= %s %s) (not (= (slen %s) (slen %s))) (and (<= 0 %s) (< %s (slen %s)) (not (= (select (sarr %s) %s) (select (sarr %s) %s))))))\n",
